@@ -244,6 +244,62 @@ def resetProgCond : List Cmd :=
   [ .setGlob gRng .arg, .log (.add (.loc lState) (.glob gSimOutput)), .setEnv eEpisode (.add (.env eEpisode) (.lit 1)),
     .setGlob gPcapLoggers (.lit 0) ] ++ buildGameCond
 
+/-! ### the seed argument: which skeleton operation a CALL `reset(seed=…)` / `PrimaiteGymEnv(cfg)` is
+
+`reset`'s parameter is `Optional[int]`; `None` and `0` are different arguments. The code tests `seed is not None` and hands the value to
+`set_random_seed`, which (quirks kept) treats `None` and `-1` as "no seed", raises below `-1`, and otherwise seeds Python's, numpy's and
+torch's process-global generators with the value. Gen/IsolationReset regenerates both functions from source; Props/C04 proves them equal
+to these for EVERY argument. -/
+
+inductive SeedOutcome
+  | keeps              -- the generators stay where the process left them
+  | seeds (v : Int)    -- random.seed(v); numpy.random.seed(v); torch.manual_seed(v)
+  | generated          -- seeded with a value drawn from OS entropy (`generate_seed_value`): outside the deterministic model
+  | raises             -- ValueError("Invalid random number seed"): the operation does not happen
+  deriving DecidableEq, Repr
+
+/-- `set_random_seed(seed, generate_seed_value)` -/
+def setRandomSeed (seed : Option Int) (gen : Bool) : SeedOutcome :=
+  match seed with
+  | none => if gen then .generated else .keeps
+  | some v => if v = -1 then (if gen then .generated else .keeps) else if v < -1 then .raises else .seeds v
+
+/-- the guard in front of the call in `PrimaiteGymEnv.reset`: `if seed is not None:` -/
+def resetSeedGuard (seed : Option Int) : Bool := seed.isSome
+
+/-- `reset(seed=…)` of an environment whose `generate_seed_value` is `gen` -/
+def resetSeeding (seed : Option Int) (gen : Bool) : SeedOutcome :=
+  if resetSeedGuard seed then setRandomSeed seed gen else .keeps
+
+/-- the (program, argument) of the skeleton that a call `reset(seed=…)` executes; `none`: outside the model (entropy / raises) -/
+def resetCall (seed : Option Int) (gen : Bool := false) : Option (List Cmd × Val) :=
+  match resetSeeding seed gen with
+  | .seeds v => some (resetProg, v)
+  | .keeps => some (resetProgNoSeed, 0)
+  | .generated => none
+  | .raises => none
+
+/-- `PrimaiteGymEnv(cfg)`: `self.seed = set_random_seed(<game.seed of episode 0>, generate_seed_value)`, unconditionally -/
+def constructCall (seed : Option Int) (gen : Bool := false) : Option (List Cmd × Val) :=
+  match setRandomSeed seed gen with
+  | .seeds v => some (constructProg, v)
+  | .keeps => some (constructProgNoSeed, 0)
+  | .generated => none
+  | .raises => none
+
+/-- NOT the code: `reset` with the guard written as a truthiness test (`if seed:`): `reset(seed=0)` is an unseeded reset -/
+def resetSeedGuardTruthy (seed : Option Int) : Bool :=
+  match seed with
+  | some v => decide (v ≠ 0)
+  | none => false
+
+def resetCallTruthy (seed : Option Int) (gen : Bool := false) : Option (List Cmd × Val) :=
+  match (if resetSeedGuardTruthy seed then setRandomSeed seed gen else .keeps) with
+  | .seeds v => some (resetProg, v)
+  | .keeps => some (resetProgNoSeed, 0)
+  | .generated => none
+  | .raises => none
+
 /-- the committed classification of the numbered globals -/
 def refClass (g : Nat) : GClass :=
   if g = gRng then .rng
